@@ -256,6 +256,47 @@ def _task_wide_groups(task):
     return t
 
 
+def _check_dataset_front_end(t: Tally, work):
+    """Reassembly through the dataset builder: create_dataset(files, definition, combine_segmented_packets=True, secondary_header_bytes=k) over
+    one, two and three files, each holding complete groups: every file is reassembled with the same options."""
+    import os
+    from space_packet_parser import xarr
+    from mc.spec import Container, Doc, Cmp, IntEnc, Param, PType, header_entries, header_params, header_ptypes, load_doc
+    os.makedirs(work, exist_ok=True)
+    doc = Doc(tuple(header_ptypes()) + (PType("SH_T", "Integer", IntEnc(16)), PType("D_T", "Integer", IntEnc(8))),
+              tuple(header_params()) + (Param("SH", "SH_T"), Param("D1", "D_T"), Param("D2", "D_T"), Param("D3", "D_T")),
+              (Container("CCSDSPacket", tuple(header_entries()) + (("p", "SH"), ("p", "D1"), ("p", "D2"), ("p", "D3"))),))
+    defn = load_doc(doc)
+    k = 2
+
+    def group(i):
+        sh = bytes([0xE0, 0xE1])
+        return [framing.mk_packet(sh + bytes([10 * i + 1]), apid=7, seqflags=1, seqcount=3 * i, shflag=1),
+                framing.mk_packet(sh + bytes([10 * i + 2]), apid=7, seqflags=0, seqcount=3 * i + 1, shflag=1),
+                framing.mk_packet(sh + bytes([10 * i + 3]), apid=7, seqflags=2, seqcount=3 * i + 2, shflag=1)]
+    for nfiles in (1, 2, 3):
+        paths = []
+        for fi in range(nfiles):
+            pth = os.path.join(work, f"c12ds_{os.getpid()}_{fi}.bin")
+            with open(pth, "wb") as f:
+                f.write(b"".join(p for gi in (2 * fi, 2 * fi + 1) for p in group(gi)))
+            paths.append(pth)
+        want = [[10 * gi + 1, 10 * gi + 2, 10 * gi + 3] for gi in range(2 * nfiles)]
+        t.evals += 1
+        t.nontrivial += 1
+        try:
+            with observed_warnings():
+                ds = xarr.create_dataset(paths, defn, combine_segmented_packets=True, secondary_header_bytes=k)
+            got = [[int(ds[7][nm].values[r]) for nm in ("D1", "D2", "D3")] for r in range(len(ds[7]["D1"].values))] if 7 in ds else []
+        except Exception as e:  # noqa: BLE001
+            got = f"raised {type(e).__name__}: {str(e)[:100]}"
+        if got != want:
+            t.violation({"kind": "reassembly", "front_end": "create_dataset", "files": nfiles}, {"dataset_front_end": True, "files": nfiles, "k": k},
+                        expected=want, observed=got, note="groups in later files are not reassembled like those in the first")
+        for pth in paths:
+            os.unlink(pth)
+
+
 def run(ctx):
     tasks = []
     max_len = 4 if ctx.quick else 6
@@ -275,6 +316,7 @@ def run(ctx):
                         jobs=ctx.jobs, seed=ctx.seed))
     tally.merge(fan_out(_task_wide_groups, [{"n": n, "reverse": r, "continuation": c} for n in (3, 129, 257, 300, 1025, 2048) for r in (False, True) for c in (False, True)],
                         jobs=ctx.jobs, seed=ctx.seed))
+    _check_dataset_front_end(tally, ctx.work)
     # distinct model states: recompute cheaply over all histories of length <= 4 (the model is tiny)
     states = set()
     for n in range(1, 5):
@@ -300,6 +342,12 @@ def run(ctx):
 
 
 def replay(case):
+    if case.get("dataset_front_end"):
+        from mc import VERIF_ROOT
+        import os
+        t = Tally()
+        _check_dataset_front_end(t, os.path.join(VERIF_ROOT, ".work"))
+        return next((v for v in t.violations if v["case"].get("files") == case.get("files")), None)
     if "long_group" in case:
         t = _task_long_groups({"sizes": [case["long_group"]], "base": case["base"]})
         return next((v for v in t.violations if v["case"]["gap_at"] == case["gap_at"]), None)
